@@ -572,11 +572,12 @@ fn c22_find_next_fast_modular() {
     let mut buf = Bytes::<MW>(kani::any());
     let (win, img, j) = modular_setup(&mut buf, lb);
     kani::assume(win.spec.log_bytes_in_region >= lb);
+    kani::assume(win.r0 > 0); // address 0 is never mapped (Address::is_mapped)
     let k: usize = kani::any();
     kani::assume(k < win.n);
     let data_addr = win.addr_in(k);
     let limit: usize = kani::any();
-    kani::assume(limit >= 1 && limit <= (1 << 40));
+    kani::assume(limit >= 1 && limit <= (1 << 40) && data_addr.as_usize() <= (1usize << 60));
     let end = data_addr.as_usize() + limit;
     kani::assume(end <= win.region_start(win.n - 1).as_usize());
     let r = mmtk::verif_hooks::side_global::find_next_non_zero_value_fast::<u8>(&win.spec, data_addr, limit);
@@ -603,6 +604,7 @@ fn c22_find_next_simple_deep() {
 fn check_find_next_simple(lb: usize, lbr: Option<usize>) {
     let mut buf = Bytes::<MW>(kani::any());
     let (win, img, j) = modular_setup_geom(&mut buf, lb, lbr);
+    kani::assume(win.r0 > 0 && win.r0 <= (1usize << 50));
     let k: usize = kani::any();
     kani::assume(k < win.n);
     let data_addr = win.addr_in(k);
@@ -618,28 +620,28 @@ fn check_find_next_simple(lb: usize, lbr: Option<usize>) {
 
 
 // ------------------------------------------------------------------------------------------
-// scan_non_zero_values (fast path, 1 bit per region) on a 16-byte window: visits exactly the non-zero regions
-// of [start, end), ascending, each once -- against the bitmap itself (the region-by-region scan's answer).
-// Bounded: 16 metadata bytes (128 regions), at most two set bits per metadata word.
+// scan_non_zero_values (fast path, 1 bit per region): visits exactly the non-zero regions of [start, end), ascending,
+// each once -- against the bitmap itself (the region-by-region scan's answer). Bounded: an 8-byte metadata window
+// (64 regions, <= 3 set bits) in the quick tier, 16 bytes (128 regions, <= 2 set bits per word) in the thorough tier.
 // ------------------------------------------------------------------------------------------
-#[kani::proof]
-#[kani::unwind(11)]
-#[kani::stub(mmtk::util::metadata::side_metadata::global_side_metadata_base_address, stub_base)]
-fn c22_scan_values_fast() {
-    let sparse = |_: ()| -> u64 {
-        let (a, b): (u32, u32) = (kani::any(), kani::any());
-        kani::assume(a < 64 && b < 64);
-        let m: u8 = kani::any();
-        (if m & 1 != 0 { 1u64 << a } else { 0 }) | (if m & 2 != 0 { 1u64 << b } else { 0 })
-    };
-    let (w0, w1) = (sparse(()), sparse(()));
-    let mut raw = [0u8; 16];
-    let (b0, b1) = (w0.to_le_bytes(), w1.to_le_bytes());
-    raw[0] = b0[0]; raw[1] = b0[1]; raw[2] = b0[2]; raw[3] = b0[3]; raw[4] = b0[4]; raw[5] = b0[5]; raw[6] = b0[6]; raw[7] = b0[7];
-    raw[8] = b1[0]; raw[9] = b1[1]; raw[10] = b1[2]; raw[11] = b1[3]; raw[12] = b1[4]; raw[13] = b1[5]; raw[14] = b1[6]; raw[15] = b1[7];
-    let mut buf = Bytes::<16>(raw);
-    let win = Window::<2>::new_geom(buf.addr(), 0, 3);
-    let bit = |p: usize| -> bool { ((if p < 64 { w0 } else { w1 }) >> (p % 64)) & 1 == 1 };
+fn sparse_word(max_bits: u8) -> u64 {
+    let (a, b, c): (u32, u32, u32) = (kani::any(), kani::any(), kani::any());
+    kani::assume(a < 64 && b < 64 && c < 64);
+    let m: u8 = kani::any();
+    (if m & 1 != 0 { 1u64 << a } else { 0 }) | (if m & 2 != 0 { 1u64 << b } else { 0 }) | (if m & 4 != 0 && max_bits >= 3 { 1u64 << c } else { 0 })
+}
+
+fn check_scan_values<const W: usize>(words: [u64; W]) {
+    let mut raw = [[0u8; 8]; W];
+    let mut i = 0;
+    while i < W {
+        raw[i] = words[i].to_le_bytes();
+        i += 1;
+    }
+    let mut holder = Holder(raw); // [[u8; 8]; W] is W * 8 contiguous bytes, 8-byte aligned by Holder
+    let base = Address::from_mut_ptr(holder.0.as_mut_ptr()).as_usize();
+    let win = Window::<W>::new_geom(base, 0, 3);
+    let bit = |p: usize| -> bool { (words[p / 64] >> (p % 64)) & 1 == 1 };
     let (ks, ke): (usize, usize) = (kani::any(), kani::any());
     kani::assume(ks <= ke && ke < win.n);
     let j: usize = kani::any();
@@ -653,72 +655,100 @@ fn c22_scan_values_fast() {
     mmtk::verif_hooks::side_global::scan_non_zero_values_fast(&win.spec, win.region_start(ks), win.region_start(ke), &mut |a: Address| {
         let a = a.as_usize();
         let q = (a >> lbr).wrapping_sub(r0);
-        ok = ok && a & ((1 << lbr) - 1) == 0 && q >= ks && q < ke && q < 128 && bit(q) && (q as isize) > last;
+        ok = ok && a & ((1 << lbr) - 1) == 0 && q >= ks && q < ke && q < 64 * W && bit(q) && (q as isize) > last;
         last = q as isize;
         saw_j = saw_j || q == j;
         count += 1;
     });
     assert!(ok, "C22.scan_values.visits_only_non_zero_regions_of_the_range_ascending");
     assert!(saw_j == (j >= ks && j < ke && bit(j)), "C22.scan_values.visits_exactly_the_non_zero_regions_of_the_range");
-    kani::cover!(count == 4, "C22.cover.scan_values_four_regions");
-    kani::cover!(count >= 1 && ks % 8 == 3 && ke % 8 == 5 && ke - ks > 70, "C22.cover.scan_values_unaligned_long_range");
-    kani::cover!(ke - ks < 8 && ks % 8 != 0 && count == 1, "C22.cover.scan_values_inside_one_byte");
-    std::mem::forget(buf);
+    kani::cover!(count == 3, "C22.cover.scan_values_three_regions");
+    kani::cover!(count >= 1 && ks % 8 == 3 && ke % 8 == 5 && ke - ks > 30, "C22.cover.scan_values_unaligned_range");
+    kani::cover!(ke - ks < 8 && ks % 8 != 0 && ks / 8 == ke / 8 && count == 1, "C22.cover.scan_values_inside_one_byte");
+    std::mem::forget(holder);
+}
+
+#[repr(C, align(8))]
+struct Holder<const W: usize>([[u8; 8]; W]);
+
+#[kani::proof]
+#[kani::unwind(11)]
+#[kani::stub(mmtk::util::metadata::side_metadata::global_side_metadata_base_address, stub_base)]
+fn c22_scan_values_fast_exp() {
+    check_scan_values::<1>([sparse_word(3)]);
+}
+
+#[kani::proof]
+#[kani::unwind(11)]
+#[kani::stub(mmtk::util::metadata::side_metadata::global_side_metadata_base_address, stub_base)]
+fn c22_scan_values_fast_two_words_exp() {
+    check_scan_values::<2>([sparse_word(2), sparse_word(2)]);
 }
 
 // ------------------------------------------------------------------------------------------
 // The byte-scanning loops at the edge of mapped metadata. The harness mmapper reports 8-byte grains and only the
-// 16-byte buffer as mapped; the searched range sticks out of the buffer on the side the scan moves towards. The scan
-// must report UnmappedMetadata when it reaches the edge without having found a set bit -- and must never load from
-// outside the mapped buffer (any such load is an out-of-bounds dereference, i.e. a failing check).
+// middle 16 bytes of a 48-byte buffer as mapped; the searched range sticks out of the mapped window on the side the
+// scan moves towards. The scan must report UnmappedMetadata when it reaches the edge without having found a set bit,
+// and must never report (i.e. never load) a bit of the unmapped parts, which hold all-ones.
 // ------------------------------------------------------------------------------------------
 #[kani::proof]
 #[kani::unwind(36)]
 #[kani::stub(mmtk::util::heap::layout::create_mmapper, stub_create_mmapper)]
 fn c22_find_in_bytes_at_mapped_edge() {
-    let mut buf = Bytes::<16>(kani::any());
-    let img = buf.0;
-    let base = buf.addr();
-    kani::assume(base >= 64);
+    // 48-byte buffer: the middle 16 bytes are "mapped" (symbolic contents); the 16 bytes on either side are reported
+    // unmapped by the harness mmapper and hold all-ones, so a scan that loads from them finds a bit there.
+    let mid: [u8; 16] = kani::any();
+    let mut raw = [0xffu8; 48];
+    let mut i = 0;
+    while i < 16 {
+        raw[16 + i] = mid[i];
+        i += 1;
+    }
+    let mut buf = Bytes::<48>(raw);
+    let base = buf.addr() + 16; // start of the mapped window
     unsafe {
         MAPPED_LO = base;
         MAPPED_HI = base + 16;
         LOG_GRANULARITY = 3;
     }
     let backwards: bool = kani::any();
-    let (s, e): (usize, usize) = (kani::any(), kani::any());
-    kani::assume(s < e);
+    // NOTE: the range bounds are offsets from the buffer's address. A free symbolic integer used as an address is
+    // mis-resolved by CBMC's integer-to-pointer conversion (found while building this harness), so every address
+    // that is dereferenced is derived from a real pointer.
+    let (so, eo): (usize, usize) = (kani::any(), kani::any());
+    kani::assume(so < eo && eo <= 48);
+    let (s, e) = (base - 16 + so, base - 16 + eo);
     if backwards {
-        kani::assume(s >= base - 16 && e > base && e <= base + 16);
+        kani::assume(e > base && e <= base + 16);
     } else {
-        kani::assume(s >= base && s < base + 16 && e <= base + 32);
+        kani::assume(s >= base && s < base + 16);
     }
     let lo = if s > base { s } else { base };
     let hi = if e < base + 16 { e } else { base + 16 };
     let fully_mapped = s >= base && e <= base + 16;
     let j: usize = kani::any(); // witness bit inside the mapped part of the range
     kani::assume(j >= 8 * (lo - base) && j < 8 * (hi - base));
-    let bit = |p: usize| (img[p / 8] >> (p % 8)) & 1 == 1;
     let r = if backwards {
         h::find_last_non_zero_bit_in_metadata_bytes(addr(s), addr(e))
     } else {
         h::find_first_non_zero_bit_in_metadata_bytes(addr(s), addr(e))
     };
+    let set_j = (mid[j / 8] >> (j % 8)) & 1 == 1;
     match r {
         FindMetaBitResult::Found { addr: fa, bit: b } => {
             let fa = fa.as_usize();
-            assert!(fa >= lo && fa < hi && b < 8, "C22.mapped_edge.result_in_mapped_part_of_range");
+            assert!(fa >= lo && fa < hi && b < 8, "C22.mapped_edge.never_reports_a_bit_of_unmapped_metadata");
             let p = 8 * (fa - base) + b as usize;
-            assert!(bit(p), "C22.mapped_edge.result_is_set");
-            assert!(!(bit(j) && if backwards { j > p } else { j < p }), "C22.mapped_edge.no_set_bit_met_earlier");
+            assert!((mid[p / 8] >> (p % 8)) & 1 == 1, "C22.mapped_edge.result_is_set");
+            assert!(!(set_j && if backwards { j > p } else { j < p }), "C22.mapped_edge.no_set_bit_met_earlier");
         }
         FindMetaBitResult::NotFound => {
             assert!(fully_mapped, "C22.mapped_edge.not_found_only_if_whole_range_was_scanned");
-            assert!(!bit(j), "C22.mapped_edge.none_means_all_zero");
+            assert!(!set_j, "C22.mapped_edge.none_means_all_zero");
         }
         FindMetaBitResult::UnmappedMetadata => {
             assert!(!fully_mapped, "C22.mapped_edge.unmapped_only_if_range_leaves_mapped_memory");
-            assert!(!bit(j), "C22.mapped_edge.unmapped_only_after_scanning_the_mapped_part");
+            assert!(!set_j, "C22.mapped_edge.unmapped_only_after_scanning_the_mapped_part");
         }
     }
     kani::cover!(matches!(r, FindMetaBitResult::UnmappedMetadata) && backwards, "C22.cover.backward_scan_hits_unmapped_edge");
@@ -726,3 +756,4 @@ fn c22_find_in_bytes_at_mapped_edge() {
     kani::cover!(matches!(r, FindMetaBitResult::Found { .. }) && !fully_mapped, "C22.cover.found_before_the_edge");
     std::mem::forget(buf);
 }
+
